@@ -120,6 +120,7 @@ impl Env {
 }
 
 fn main() {
+    world::leaderless_helper_if_requested();
     // the cases run in a supervised child process: a death of the whole process is a finding too
     let sup = vcommon::result::supervise("C13");
     world::install_panic_recorder();
@@ -167,6 +168,8 @@ fn main() {
         Caller { exe: String, arg: String, denied: bool },
         /// caller whose executable path is not valid UTF-8 (bytes)
         CallerBytes { exe: Vec<u8>, denied: bool },
+        /// caller whose main thread has exited (executable path and command line unreadable), or that is gone altogether
+        CallerOdd { kind: &'static str, denied: bool },
         /// raw request from an ordinary elevated caller
         Request { label: String, raw: Vec<u8> },
         /// host reply to the key keeper's status poll, followed by a /provision query
@@ -342,6 +345,11 @@ fn main() {
             cases.push((json!({"kind": "caller-path-not-utf8", "where": label, "denied": denied}), Case::CallerBytes { exe: exe.clone(), denied }));
         }
     }
+    for kind in ["main-thread-exited", "process-gone", "pid-zero", "pid-max"] {
+        for denied in [false, true] {
+            cases.push((json!({"kind": "caller-unusual-process", "what": kind, "denied": denied}), Case::CallerOdd { kind, denied }));
+        }
+    }
     let root_rec = AuditRec::to(WS, 0, root_pid, true);
     for (idx, (desc, case)) in cases.iter().enumerate() {
         if sup.done_before(idx) {
@@ -364,6 +372,24 @@ fn main() {
             Case::CallerBytes { exe, denied } => {
                 use std::os::unix::ffi::OsStrExt;
                 let pid = env.w.spawn_proc_os(std::ffi::OsStr::from_bytes(exe), &[std::ffi::OsStr::new("100000")], Some(1001));
+                let rec = AuditRec::to(IMDS, 1001, pid, false);
+                env.w.set_rules(IMDS, if *denied { Policy::simple("enforce-deny", "enforce", false).to_item() } else { None });
+                let raw = build_request("GET", "/metadata/instance", &[("Host", b"h"), ("Metadata", b"true")], None, None);
+                got_response = Some(env.request(&rec, &raw));
+                std::thread::sleep(Duration::from_millis(20));
+            }
+            Case::CallerOdd { kind, denied } => {
+                let pid = match *kind {
+                    "main-thread-exited" => env.w.spawn_leaderless("vt-selfnamed", Some(1001)),
+                    "process-gone" => {
+                        let mut c = std::process::Command::new("/bin/true").spawn().unwrap();
+                        let p = c.id();
+                        let _ = c.wait();
+                        p
+                    }
+                    "pid-zero" => 0,
+                    _ => u32::MAX,
+                };
                 let rec = AuditRec::to(IMDS, 1001, pid, false);
                 env.w.set_rules(IMDS, if *denied { Policy::simple("enforce-deny", "enforce", false).to_item() } else { None });
                 let raw = build_request("GET", "/metadata/instance", &[("Host", b"h"), ("Metadata", b"true")], None, None);
@@ -481,7 +507,7 @@ fn main() {
     res.cov("distinct_nontrivial", nontrivial.len() as u64);
     res.cov("panics_recorded", panics_total);
     res.cov("exhaustive", true);
-    res.cov("rule", "caller command lines/exe names made of 2-, 3- and 4-byte UTF-8 characters behind 0..w-1 ASCII bytes (every alignment against the byte-offset cuts at 512/1024/4096) x allowed/denied; callers whose executable path is not valid UTF-8 (directory, file name, both); requests with each header-value byte (0x09, 0x7f, 0x80..0xff; quick: 6 representatives) single and repeated, URLs/queries of 1000..65000 bytes, 90 repeated headers, a 30000-byte header value, requests without / with an empty / with two Host headers, HTTP/1.0, OPTIONS *, CONNECT (authority-form), absolute-form targets; query values with truncated / invalid percent escapes while rules with query parameters are in force; host replies to the key keeper's status poll over 9 content types x bodies (empty, 1-3 bytes, valid, multi-byte bodies at every alignment) x content-length / chunked with a 1- or 3-byte first chunk (odd UTF-16 frames) / a declared Content-Length of 2^63 or 2^40 with the connection closed; 16 rule documents with dangling, duplicate, missing and empty names in force while matching requests arrive; wake-up notifications to the key keeper at every 0.125 ms offset across its poll interval; the cases run in a supervised child process, so a death of the whole process (abort, allocation failure) is attributed to the case in progress; after every case: no panic anywhere in the process, the request got an HTTP response, and listener, /provision, key keeper and status task are still live".to_string());
+    res.cov("rule", "caller command lines/exe names made of 2-, 3- and 4-byte UTF-8 characters behind 0..w-1 ASCII bytes (every alignment against the byte-offset cuts at 512/1024/4096) x allowed/denied; callers whose executable path is not valid UTF-8 (directory, file name, both); callers whose main thread has exited (executable and command line unreadable), that are gone, or whose recorded pid is 0 / 2^32-1; requests with each header-value byte (0x09, 0x7f, 0x80..0xff; quick: 6 representatives) single and repeated, URLs/queries of 1000..65000 bytes, 90 repeated headers, a 30000-byte header value, requests without / with an empty / with two Host headers, HTTP/1.0, OPTIONS *, CONNECT (authority-form), absolute-form targets; query values with truncated / invalid percent escapes while rules with query parameters are in force; host replies to the key keeper's status poll over 9 content types x bodies (empty, 1-3 bytes, valid, multi-byte bodies at every alignment) x content-length / chunked with a 1- or 3-byte first chunk (odd UTF-16 frames) / a declared Content-Length of 2^63 or 2^40 with the connection closed; 16 rule documents with dangling, duplicate, missing and empty names in force while matching requests arrive; wake-up notifications to the key keeper at every 0.125 ms offset across its poll interval; the cases run in a supervised child process, so a death of the whole process (abort, allocation failure) is attributed to the case in progress; after every case: no panic anywhere in the process, the request got an HTTP response, and listener, /provision, key keeper and status task are still live".to_string());
     res.assume("a panic is attributed to the case during or directly after which it is recorded");
     std::process::exit(res.finish());
 }
